@@ -165,3 +165,73 @@ package v4
 //@   property C13
 //@   ensures res == e[coffsetof("struct calico_ct_value", "type")]
 //@   assigns nothing
+
+//@ -- Every scalar accessor of the conntrack value reads the bytes where the kernel struct keeps the field,
+//@ -- in the IPv4 and in the IPv6 layout (little-endian, as the BPF programs store them on the supported hosts).
+//@ spec func le16(b0 uint8, b1 uint8) uint16 = uint16(b0) | uint16(b1) << 8
+//@ spec func le64(b0 uint8, b1 uint8, b2 uint8, b3 uint8, b4 uint8, b5 uint8, b6 uint8, b7 uint8) uint64 =
+//@      uint64(b0) | uint64(b1) << 8 | uint64(b2) << 16 | uint64(b3) << 24 | uint64(b4) << 32 | uint64(b5) << 40 | uint64(b6) << 48 | uint64(b7) << 56
+//@ func (Value).RSTSeen
+//@   property C13
+//@   ensures uint64(res) == le64(e[coffsetof("struct calico_ct_value", "rst_seen") + 0], e[coffsetof("struct calico_ct_value", "rst_seen") + 1], e[coffsetof("struct calico_ct_value", "rst_seen") + 2], e[coffsetof("struct calico_ct_value", "rst_seen") + 3], e[coffsetof("struct calico_ct_value", "rst_seen") + 4], e[coffsetof("struct calico_ct_value", "rst_seen") + 5], e[coffsetof("struct calico_ct_value", "rst_seen") + 6], e[coffsetof("struct calico_ct_value", "rst_seen") + 7])
+//@   assigns nothing
+//@ func (Value).Flags
+//@   property C13
+//@   ensures res == uint32(e[coffsetof("struct calico_ct_value", "flags")]) | uint32(e[coffsetof("struct calico_ct_value", "flags2")]) << 8 | uint32(e[coffsetof("struct calico_ct_value", "flags3")]) << 16 | uint32(e[coffsetof("struct calico_ct_value", "flags4")]) << 24
+//@   assigns nothing
+//@ func (Value).OrigPort
+//@   property C13
+//@   ensures res == le16(e[coffsetof("struct calico_ct_value", "orig_port") + 0], e[coffsetof("struct calico_ct_value", "orig_port") + 1])
+//@   assigns nothing
+//@ func (Value).OrigSPort
+//@   property C13
+//@   ensures res == le16(e[coffsetof("struct calico_ct_value", "orig_sport") + 0], e[coffsetof("struct calico_ct_value", "orig_sport") + 1])
+//@   assigns nothing
+//@ func (Value).NATSPort
+//@   property C13
+//@   ensures res == le16(e[coffsetof("struct calico_ct_value", "nat_sport") + 0], e[coffsetof("struct calico_ct_value", "nat_sport") + 1])
+//@   assigns nothing
+//@ func (Value).OrigIP
+//@   property C13
+//@   ensures len(res) == 4 && forall i int :: 0 <= i && i < 4 ==> res[i] == e[coffsetof("struct calico_ct_value", "orig_ip") + i]
+//@   assigns nothing
+//@ func (Value).OrigSrcIP
+//@   property C13
+//@   ensures len(res) == 4 && forall i int :: 0 <= i && i < 4 ==> res[i] == e[coffsetof("struct calico_ct_value", "orig_sip") + i]
+//@   assigns nothing
+//@ func (ValueV6).RSTSeen
+//@   property C13
+//@   ensures uint64(res) == le64(e[coffsetof6("struct calico_ct_value", "rst_seen") + 0], e[coffsetof6("struct calico_ct_value", "rst_seen") + 1], e[coffsetof6("struct calico_ct_value", "rst_seen") + 2], e[coffsetof6("struct calico_ct_value", "rst_seen") + 3], e[coffsetof6("struct calico_ct_value", "rst_seen") + 4], e[coffsetof6("struct calico_ct_value", "rst_seen") + 5], e[coffsetof6("struct calico_ct_value", "rst_seen") + 6], e[coffsetof6("struct calico_ct_value", "rst_seen") + 7])
+//@   assigns nothing
+//@ func (ValueV6).LastSeen
+//@   property C13
+//@   ensures uint64(res) == le64(e[coffsetof6("struct calico_ct_value", "last_seen") + 0], e[coffsetof6("struct calico_ct_value", "last_seen") + 1], e[coffsetof6("struct calico_ct_value", "last_seen") + 2], e[coffsetof6("struct calico_ct_value", "last_seen") + 3], e[coffsetof6("struct calico_ct_value", "last_seen") + 4], e[coffsetof6("struct calico_ct_value", "last_seen") + 5], e[coffsetof6("struct calico_ct_value", "last_seen") + 6], e[coffsetof6("struct calico_ct_value", "last_seen") + 7])
+//@   assigns nothing
+//@ func (ValueV6).Type
+//@   property C13
+//@   ensures res == e[coffsetof6("struct calico_ct_value", "type")]
+//@   assigns nothing
+//@ func (ValueV6).Flags
+//@   property C13
+//@   ensures res == uint32(e[coffsetof6("struct calico_ct_value", "flags")]) | uint32(e[coffsetof6("struct calico_ct_value", "flags2")]) << 8 | uint32(e[coffsetof6("struct calico_ct_value", "flags3")]) << 16 | uint32(e[coffsetof6("struct calico_ct_value", "flags4")]) << 24
+//@   assigns nothing
+//@ func (ValueV6).OrigPort
+//@   property C13
+//@   ensures res == le16(e[coffsetof6("struct calico_ct_value", "orig_port") + 0], e[coffsetof6("struct calico_ct_value", "orig_port") + 1])
+//@   assigns nothing
+//@ func (ValueV6).OrigSPort
+//@   property C13
+//@   ensures res == le16(e[coffsetof6("struct calico_ct_value", "orig_sport") + 0], e[coffsetof6("struct calico_ct_value", "orig_sport") + 1])
+//@   assigns nothing
+//@ func (ValueV6).NATSPort
+//@   property C13
+//@   ensures res == le16(e[coffsetof6("struct calico_ct_value", "nat_sport") + 0], e[coffsetof6("struct calico_ct_value", "nat_sport") + 1])
+//@   assigns nothing
+//@ func (ValueV6).OrigIP
+//@   property C13
+//@   ensures len(res) == 16 && forall i int :: 0 <= i && i < 16 ==> res[i] == e[coffsetof6("struct calico_ct_value", "orig_ip") + i]
+//@   assigns nothing
+//@ func (ValueV6).OrigSrcIP
+//@   property C13
+//@   ensures len(res) == 16 && forall i int :: 0 <= i && i < 16 ==> res[i] == e[coffsetof6("struct calico_ct_value", "orig_sip") + i]
+//@   assigns nothing
